@@ -50,6 +50,8 @@ type interpreter struct {
 	violLit *Term
 	// lenSigned: signedness of the operand currently resolved by concreteLen
 	lenSigned bool
+	// warm: warm-up run (inputs are zero, nothing is recorded)
+	warm bool
 
 	hstatesInit  map[*value]*hstate
 	initHashApps []*hashApp
@@ -209,6 +211,13 @@ func (i *interpreter) initPackage(pkg *ssa.Package) {
 	}()
 	if f := pkg.Func("init"); f != nil {
 		call(i, nil, token.NoPos, f, nil)
+	}
+	if saved != nil && !i.warm && saved.initAppsSeen < len(i.initHashApps) {
+		// a lazily run initialiser computed digests of constants in the middle of a path: relate
+		// them to the symbolic applications already made on it before anything compares them
+		i.ps = saved
+		i.syncInitApps()
+		i.settleAxioms()
 	}
 }
 
